@@ -30,8 +30,19 @@ func judgeSeqCaseX(w *mc.Worker, c *seqCase, vars map[string]string, oc *originC
 	if out.Err == nil && out.Panic == "" && len(out.Postings) > 0 {
 		// the same script on the same store object a second time: the store's content is an input,
 		// not a scratch pad (the stores of this harness hand out their own numbers)
+		first := len(fs)
 		for _, f := range judge(c.Prog, in, RunReal(c.PR, vars, st, oc.Flags), model) {
 			fs = append(fs, finding{f.Clause, "second run on the same store object: " + f.Msg})
+		}
+		if first == 0 && len(fs) > 0 {
+			// right the first time, wrong the second: if the script saves, the reservation was written
+			// through to the store's own numbers (a save moves nothing and is over when the script is)
+			for _, stm := range model.Stmts {
+				if stm.Kind == "save" {
+					fs = append(fs, finding{"C08.save-outlives-the-script", "the script is executed correctly once, and differently a second time on the same store object: " + fs[0].Msg})
+					break
+				}
+			}
 		}
 	}
 	attributed := false
